@@ -6,7 +6,7 @@
       processing/parse/act_phase_source_parser.py                        -> [un_escape] [act_step]
       section_document/element_parsers/section_element_parsers.py        -> comment/empty grouping [nonact_step], [instr_lines] (parse_and_compute_source)
       processing/parse/file_inclusion_directive_parser.py                -> [incl_step]
-      element_parsers/optional_description_and_instruction_parser.py     -> [desc_cursor] [skip_cursor]
+      element_parsers/optional_description_and_instruction_parser.py     -> [instr_step] [skip_cursor] [skip_lines] (as of fix 79a014d)
       element_parsers/parser_for_dictionary_of_instructions.py           -> [ending_at] (source of an error report)
       section_document/impl/document_parser.py                           -> [loop] (_Impl), [include_file] (parse_file, _include_files), [merge] (_add_raw_doc)
       section_document/source_location.py                                -> [loc], [fileinfo], chains
@@ -193,7 +193,7 @@ Inductive access_why := Missing | Cyclic.
 Inductive error :=
 | ESource (s : option sec) (src : lineseq) (path : text) (chain : list loc)   (* FileSourceError *)
 | EAccess (s : option sec) (path : text) (chain : list loc) (why : access_why) (* FileAccessError *)
-| ECrash          (* an exception that is not a ParseError escapes (IndexError in starts_with_description) *)
+| ECrash          (* an exception that is not a ParseError escapes (none is known after fix 79a014d; kept so that one is observable) *)
 | EFuel           (* model artefact: out of fuel.  Proved unreachable (Proofs/DocTerm.v) *)
 | EOracle.        (* model artefact: oracle miss / ill-formed oracle answer.  Fail-closed in the harness *)
 
@@ -315,10 +315,7 @@ Section Reader.
   Definition instr_step (s : sec) (n : N) (l0 : text) (rest : list text) : step :=
     let c0 := count_while is_space l0 in
     match skipn c0 l0 with
-    | [] => match rest with
-            | [] => SCrash                                            (* remaining_source[0]: IndexError *)
-            | _ => skip_cursor s n l0 n l0 c0 rest
-            end
+    | [] => skip_cursor s n l0 n l0 c0 rest                          (* remaining_source[:1] is '' or a newline: no description *)
     | ch :: r0 =>
         if ch =? c_btick then
           match find_char c_btick r0 with
